@@ -65,5 +65,8 @@ Definition no_spawn_progs (progs : list (list act)) : bool := forallb (fun p => 
 Definition rr3 : nat -> tid := fun i => i mod 3.
 Definition live_progs : list (list act) := [[AAlloc true]; [ACompute; APrim; ACompute]; [APrim; ACompute]].
 Definition live_sched : list tid := [1; 0;0;0;0;0;0;0;0].
+(* a script that spawns before and after its global update (non-vacuity of the termination theorem with spawns) *)
+Definition spawning_progs : list (list act) := [[ASpawn 1; AUpdate; ASpawn 2]; [ACompute; APrim; ACompute]; [APrim; ACompute]].
+Definition spawning_sched : list tid := List.repeat 0 17.
 Definition late_progs : list (list act) := [[ASpawn 2; ASpawn 1; APrim]; List.repeat ACompute 12; [AAlloc true]].
 Definition late_sched : list tid := [0;0;0;0;0; 0;0] ++ List.repeat 2 12 ++ [0] ++ List.repeat 2 5.
